@@ -360,17 +360,25 @@ def run_kron(ck, thorough):
                         + ' differs from the explicit embedding product',
                         {'radixes': rads, 'ops_before': ops, 'side': side,
                          'location': loc, 'matrix': str(M.tolist())})
-            apply(b, side, inv, loc, oprad, M)
             U = ref_apply(U, side, inv, loc, rads, M)
             ops.append((side, inv, loc, oprad,
                         m if exact else str(M.tolist())))
             if exact:
                 txt.append(op_txt(side, inv, loc, oprad, m))
-            got = b.get_unitary()
             ck.bump('kron_apply_steps', side + ('-inv' if inv else ''))
-            if not close(got.numpy, U) or not close(
-                    tensor_entries(b.tensor, rads), U) \
-                    or tuple(b.tensor.shape) != tuple(rads) * 2:
+            try:
+                # a valid apply must neither raise nor leave a tensor of the
+                # wrong shape; either is the property failing on this input
+                apply(b, side, inv, loc, oprad, M)
+                got = b.get_unitary()
+                bad = (tuple(np.asarray(b.tensor).shape) != tuple(rads) * 2
+                       or not close(got.numpy, U)
+                       or not close(tensor_entries(b.tensor, rads), U))
+            except Exception as e:                  # noqa: BLE001
+                bad = True
+                got = type('G', (), {'numpy': np.zeros_like(U)})()
+                ops.append(('raised', repr(e)[:200]))
+            if bad:
                 name = 'apply_right' if side == 'R' else 'apply_left'
                 ck.violation(
                     f'kron-{name}-differs-from-definition',
